@@ -22,7 +22,13 @@ fam('types_ctor', depth=3, maxstack=4,
               ('EDIV',), ('SLICE',), ('ISNAT',), ('SUB_MUTEZ',), ('ABS',), ('SOME',), ('PAIR', 2), ('SWAP',), ('DIG', 2), ('NEG',), ('INT',),
               ('IF_NONE', (('UNIT',), ('FAILWITH',)), ()), ('UNPAIR', 2)])
 
-FAMS = ['types_list', 'types_map', 'types_ctor', 'optlist', 'adt']
+fam('types_upd', depth=2, maxstack=4,
+    inits=[(S(OPT(STR), some(s('x'))), S(P(OPT(NAT), NAT), p(some(i(1)), i(2)))), (S(LIST(STR), lst(s('a'))), S(P(INT, P(LIST(INT), NAT)), p(i(1), p(lst(i(2)), i(3))))),
+           (S(OR(STR, INT), left(s('q'))), S(P(INT, P(NAT, OR(INT, STR))), p(i(1), p(i(2), right(s('z')))))), (S(P(STR, STR), p(s('a'), s('b'))), S(P(P(INT, INT), P(P(NAT, NAT), UNIT)), p(p(i(1), i(2)), p(p(i(3), i(4)), U))))],
+    alphabet=[('UPDATE', 1), ('UPDATE', 2), ('UPDATE', 3), ('UPDATE', 4), ('GET', 1), ('GET', 2), ('GET', 3), ('GET', 4), ('CAR',), ('CDR',), ('UNPAIR', 2), ('UNPAIR', 3), ('SWAP',),
+              ('IF_NONE', (PUSH(STR, s('n')),), ()), ('IF_CONS', (DIP(1, DROP(1)),), (PUSH(STR, s('e')),)), ('SIZE',)])
+
+FAMS = ['types_upd', 'types_list', 'types_map', 'types_ctor', 'optlist', 'adt']
 
 
 def run(ctx):
